@@ -352,7 +352,9 @@ class PDFStream(PDFObject):
             elif f in LITERALS_RUNLENGTH_DECODE:
                 data = rldecode(data)
             elif f in LITERALS_CCITTFAX_DECODE:
-                data = ccittfaxdecode(data, params)
+                # the parameter values may be indirect references
+                ccitt_params = {k: resolve1(v) for (k, v) in params.items()}
+                data = ccittfaxdecode(data, ccitt_params)
             elif f in LITERALS_DCT_DECODE:
                 # This is probably a JPG stream
                 # it does not need to be decoded twice.
